@@ -1,10 +1,140 @@
 import Driver.Util
+import Hv.Data.Events
 
-/-! Placeholder: the line-protocol driver of domain C19 is not written yet. -/
+/-! Line-protocol driver of domain C19 (same ops and reply format as `/verif/harness/c19.go`).
+    A reply carries `\t#F:<finding>` when the model's delivery differs from the Spec's there. -/
 namespace Driver.C19
+open Hv.Events
 
-def run (_args : List String) : IO UInt32 := do
-  IO.eprintln "drv: domain C19 has no driver yet"
-  return 2
+structure Thread where
+  name : String
+  key : String
+  val : String
+  state : String      -- sq | guard | done
+  status : String
+
+structure DSt where
+  cfg : Cfg
+  timeConv : TimeConv
+  mutex : Bool
+  mode : String
+  m : St
+  sp : Spec
+  ths : List Thread
+
+def showVal : Val → String
+  | .str s => "s." ++ s
+  | .int i => "i." ++ toString i
+
+def timeTok : TimeConv → String
+  | .unixSec => "nsAsSec"
+  | .unixNano => "ok"
+  | .unixSplit => "ok"
+  | .unknown => "bad"
+
+def showEvent (tc : TimeConv) (e : Event) : String :=
+  match e.kind with
+  | .new => s!"N:{e.key}={showVal e.val}@{timeTok tc}"
+  | .mod => s!"M:{e.key}={showVal e.val}<{match e.old with | some o => showVal o | none => "nil"}@{timeTok tc}"
+  | .del => s!"D:{e.key}={showVal e.val}@{timeTok tc}"
+
+def showStatus (op : Op) (st : Status) (m' : St) : String :=
+  match op, st with
+  | .inc k _, .typeErr => let _ := k; "ERR"
+  | .inc k _, _ => match m'.recs k with
+    | some r => (match r.val with | .int i => s!"val:{i}" | _ => "ERR")
+    | none => "ERR"
+  | _, .new => "NEW"
+  | _, .updated => "UPDATED"
+  | _, .same => "SAME"
+  | _, .deleted => "DELETED"
+  | _, .notFound => "NOT_FOUND"
+  | _, .typeErr => "ERR"
+  | _, .none => "-"
+
+def sortNat (l : List Nat) : List Nat := (l.toArray.qsort (· < ·)).toList
+
+def seqReply (d : DSt) (op : Op) : DSt × String :=
+  let (m', st, evs) := stepM d.cfg d.m op
+  let (sp', sevs) := stepS d.sp op
+  let subs := sortNat d.m.subs
+  let body := subs.foldl (fun acc i => acc ++ s!" s{i}=[{";".intercalate (evs.map (showEvent d.timeConv))}]") ""
+  let delivered := !subs.isEmpty
+  let flags :=
+    (if delivered && !evs.isEmpty && d.timeConv == .unixSec then "\t#F:C19-event-time-nanos-as-seconds" else "") ++
+    (if delivered && evs.length != sevs.length then "\t#F:C19-noop-save-emits-event" else "") ++
+    (if delivered && evs.length == sevs.length && evs != sevs then "\t#F:C19-old-treasure-is-live-object" else "")
+  ({ d with m := m', sp := sp' }, s!"st={showStatus op st m'}{body}{flags}")
+
+def concState (d : DSt) (ths : List Thread) : String × Nat :=
+  let sq := (ths.filter (·.state == "sq")).length
+  let inside := if d.mutex then min 1 sq else sq
+  let body := ths.foldl (fun acc t =>
+    acc ++ (if t.state == "done" then s!"{t.name}:done({t.status}) " else s!"{t.name}:{t.state} ")) ""
+  (body ++ s!"inside={inside}", inside)
+
+def step (d : DSt) (line : String) : DSt × String :=
+  match words line with
+  | ["case", _, mode] =>
+    ({ d with mode := mode, m := St.init, sp := Spec.init, ths := [] }, line)
+  | ["case", _, mode, _] =>
+    ({ d with mode := mode, m := St.init, sp := Spec.init, ths := [] }, line)
+  | ["case", _] => ({ d with mode := "", m := St.init, sp := Spec.init, ths := [] }, line)
+  | ws =>
+    if d.mode == "seq" then
+      match ws with
+      | ["sub", i] => match i.toNat? with
+        | some n => let r := seqReply d (.sub n); (r.1, "ok")
+        | none => (d, "bad-op")
+      | ["unsub", i] => match i.toNat? with
+        | some n => let r := seqReply d (.unsub n); (r.1, "ok")
+        | none => (d, "bad-op")
+      | ["set", k, v] => seqReply d (.set k (.str v))
+      | ["inc", k, n] => match n.toInt? with
+        | some i => seqReply d (.inc k i)
+        | none => (d, "bad-op")
+      | ["del", k] => seqReply d (.del k)
+      | ["shift", k] => seqReply d (.shift k)
+      | ["get", k] => seqReply d (.get k)
+      | ["reload"] => seqReply d .reload
+      | _ => (d, "bad-op")
+    else if d.mode == "conc" then
+      match ws with
+      | ["spawn", t, "set", k, v] =>
+        if d.ths.any (·.name == t) then (d, "bad-op") else
+        let blocked := d.ths.any (fun u => u.key == k && u.state != "done")
+        let ths := d.ths ++ [{ name := t, key := k, val := v, state := if blocked then "guard" else "sq", status := "" }]
+        let (s, inside) := concState d ths
+        ({ d with ths := ths }, s ++ (if inside ≥ 2 then "\t#F:C19-concurrent-sendmsg" else ""))
+      | ["drain"] =>
+        if d.ths.all (·.state == "done") && !d.ths.isEmpty then (d, "bad-op") else
+        -- commits happen in guard (= spawn) order per key
+        let (m', ths) := d.ths.foldl (fun (acc : St × List Thread) t =>
+          if t.state == "done" then (acc.1, acc.2 ++ [t]) else
+          let r := stepM d.cfg acc.1 (.set t.key (.str t.val))
+          (r.1, acc.2 ++ [{ t with state := "done", status := showStatus (.set t.key (.str t.val)) r.2.1 r.1 }])) (d.m, [])
+        let (s, _) := concState d ths
+        ({ d with m := m', ths := ths }, s)
+      | _ => (d, "bad-op")
+    else if d.mode == "stress" then
+      match ws with
+      | ["stress", a, _, c] =>
+        match a.toNat?, c.toNat? with
+        | some w, some n =>
+          (d, s!"ok events={w * n} failed=0 perkey=ordered t={timeTok d.timeConv} overlap={if d.mutex then "0" else "~"}" ++
+            (if d.timeConv == .unixSec then "\t#F:C19-event-time-nanos-as-seconds" else ""))
+        | _, _ => (d, "bad-op")
+      | _ => (d, "bad-op")
+    else (d, "bad-op")
+
+def run (args : List String) : IO UInt32 := do
+  let kv := parseArgs args
+  let tc : TimeConv := match arg kv "timeConv" with
+    | "unixSec" => .unixSec | "unixNano" => .unixNano | "unixSplit" => .unixSplit | _ => .unknown
+  let cfg : Cfg := { resetsChangedFlags := arg kv "resetsChangedFlags" == "yes",
+                     oldIsLive := arg kv "oldIsLive" != "no" }
+  lineLoop step { cfg := cfg, timeConv := tc, mutex := arg kv "sendUnderMutex" == "yes", mode := "",
+                  m := St.init, sp := Spec.init, ths := [] }
+  return 0
 
 end Driver.C19
